@@ -4,14 +4,22 @@ IMPORTS = "From Ergo Require Import Common.Base Hs.Model Hs.Cases.\nLocal Open S
 
 # sub-command, case type, corr, spec, premise, quick n, thorough n
 RUNS = [
-    ("pair", "pcase", ["corr_pair"], ["spec_pair"], ["premise_pair"], 120, 1500),
-    ("jpair", "jcase", ["corr_jpair"], ["spec_jpair"], [], 60, 600),
-    ("adv", "acase", ["corr_adv"], ["spec_adv"], ["premise_adv"], 300, 3000),
+    ("pair", "pcase", ["corr_pair"], ["spec_pair"], ["premise_pair"], 80, 1500),
+    ("jpair", "jcase", ["corr_jpair"], ["spec_jpair"], [], 40, 600),
+    ("adv", "acase", ["corr_adv"], ["spec_adv"], ["premise_adv"], 150, 3000),
+    ("tab", "tcase", ["corr_tab"], ["spec_tab"], ["premise_tab"], 200, 4000),
+    ("conn", "ccase", ["corr_conn"], ["spec_conn"], ["premise_conn"], 24, 64),
+    ("req", "rcase", ["corr_req"], ["spec_req"], ["premise_req"], 60, 600),
 ]
 
 
 def run(c):
+    import vlib
     c.proofs("theories/Properties/C15.v", clean=(c.tier == "thorough"))
+    # the checker definitions are not in the cone of the property file: build them explicitly
+    ok, log = vlib.coq_make(["theories/Hs/Cases.vo"])
+    if not ok:
+        c.broken.append({"kind": "proof", "what": "Coq build of theories/Hs/Cases.v failed", "detail": log[-2000:]})
     for sub, ctype, corr, spec, prem, nq, nt in RUNS:
         n = nq if c.tier == "quick" else nt
         if c.replay:
